@@ -66,6 +66,19 @@ Proof.
   - intros r Hr _ Hwin. apply by_height_char. unfold window_end. rewrite Hw. split; assumption.
 Qed.
 
+(* the repaired variant: the declarative window for every 64-bit height and count (stored heights fit 64 bits) *)
+Theorem by_height_fixed_char s h c r : (forall x, In x s -> height x < two63) ->
+  (In r (by_height_range_fixed s h c) <-> In r s /\ h <= height r <= h + count_of c - 1).
+Proof.
+  intros Hb. unfold by_height_range_fixed, count_of.
+  destruct (Z.leb_spec (match c with Some c0 => c0 | None => 1 end) 0) as [Hc|Hc].
+  - split; [intros []| intros [_ H]; lia].
+  - rewrite idx_sort_in, filter_In, <- in_rev. unfold in_range, window_end_fixed.
+    rewrite andb_true_iff, !Z.leb_le. split.
+    + intros [Hr H]. split; [exact Hr|]. lia.
+    + intros [Hr H]. split; [exact Hr|]. pose proof (Hb r Hr). lia.
+Qed.
+
 (* ================================================================== tips *)
 Lemma chain_suffix s : NoDup (ids s) -> forall t pre c post, chain s t = pre ++ c :: post -> chain s (id c) = c :: post.
 Proof.
